@@ -91,6 +91,14 @@ CatLaw == op = "cat" =>
             /\ (Vals[i].t = "str" /\ Vals[j].t = "str") => R = RV(Str(Vals[i].c \o Vals[j].c))
             /\ (Vals[i].t \in {"date", "obj"}) => R = TypeErr
             /\ R.k = "v" => R.v.t = "str"
+\* the stored-encoding order differs from the value order only where an empty string meets a
+\* boolean or a number (the documented exception of C25)
+RawOnlyEmpty == op \in {"lt", "lte", "gt", "gte"} =>
+                  LET raw == EvalP(Ex, Env, <<>>, {<<>>})
+                  IN /\ raw \in EvalSet(Ex, Env) /\ R \in EvalSet(Ex, Env)
+                     /\ raw # R => \/ IsEmptyStr(Vals[i]) /\ Vals[j].t \in {"bool", "num"}
+                                   \/ IsEmptyStr(Vals[j]) /\ Vals[i].t \in {"bool", "num"}
+RawDiffers == (op = "lt" /\ IsEmptyStr(Vals[i]) /\ Vals[j].t = "num") => EvalP(Ex, Env, <<>>, {<<>>}) # R
 \* static diagnostics: an all-literal program gets a compile-time diagnostic whenever it is erroneous
 DiagLaw == (R.k = "x") => LitDiag(Ex, Env, <<TRUE, TRUE, TRUE>>)
 NoDiagOnParams == ~LitDiag(Ex, Env, <<FALSE, FALSE, FALSE>>)
